@@ -11,3 +11,6 @@ import Tcell.Props.C15
 import Tcell.Props.C14
 import Tcell.Props.C19
 import Tcell.Props.C19Page
+import Tcell.Spec.Ecma48
+import Tcell.Spec.Ecma48Lemmas
+import Tcell.Spec.Ecma48Test
